@@ -86,6 +86,11 @@ struct Scenario {
     kinds: Vec<String>,
     #[serde(default)]
     strategies: Vec<String>,
+    /// external-prover strategies on every n-th corruption (besides the control and half of the bad-pair ones)
+    #[serde(default)]
+    ext_every: Option<usize>,
+    #[serde(default)]
+    max_cor: Option<usize>,
 }
 
 fn knobs_for(strategy: &str, nch: usize) -> Option<Knobs> {
@@ -380,7 +385,10 @@ fn build<C: GenericConfig<D, F = F>>(s: &Scenario, config: plonky2::plonk::circu
     for t in order {
         let i = b.add_virtual_target();
         let o = b.add_lookup_from_index(i, tidx[t]);
-        b.register_public_input(o);
+        // the public-input hash needs Poseidon rows, which do not fit the narrow row
+        if s.cfg.width != "narrow" {
+            b.register_public_input(o);
+        }
         ins[t].push(i);
         outs[t].push(o);
     }
@@ -389,6 +397,8 @@ fn build<C: GenericConfig<D, F = F>>(s: &Scenario, config: plonky2::plonk::circu
 }
 
 fn run_one<C: GenericConfig<D, F = F>>(s: &Scenario, selftest: bool, max_cor: usize, ext_every: usize) -> Vec<Value> {
+    let max_cor = s.max_cor.unwrap_or(max_cor);
+    let ext_every = s.ext_every.unwrap_or(ext_every).max(1);
     let id = json!(s.id);
     let mut out = vec![];
     let fail = |stage: &str, detail: String| vec![json!({"id": id, "complete": false, "stage": stage, "detail": detail.chars().take(300).collect::<String>()})];
@@ -451,8 +461,10 @@ fn run_one<C: GenericConfig<D, F = F>>(s: &Scenario, selftest: bool, max_cor: us
         for (k, e) in s.tables[t].lookups.iter().enumerate() {
             let want = s.tables[t].pairs[*e].1 as u64;
             let got = a0.get(built.outs[t][k]).to_canonical_u64();
-            let pi_pos = prover.public_inputs.iter().position(|x| *x == built.outs[t][k]).unwrap();
-            let got_pi = proof.public_inputs[pi_pos].to_canonical_u64();
+            let got_pi = match prover.public_inputs.iter().position(|x| *x == built.outs[t][k]) {
+                Some(pos) => proof.public_inputs[pos].to_canonical_u64(),
+                None => got,
+            };
             if got != want || got_pi != want {
                 wrong_outputs.push(json!({"table": t, "lookup": k, "entry": e, "want": want, "witness": got, "public_input": got_pi}));
             }
@@ -787,7 +799,7 @@ fn run_one<C: GenericConfig<D, F = F>>(s: &Scenario, selftest: bool, max_cor: us
             if !is_ext && st != "plain" && !knob_strats.is_empty() && knob_strats[ci % knob_strats.len()] != st {
                 continue;
             }
-            if is_ext && c.kind != "none" && ext_every > 1 && !(ci % ext_every == 0 || c.kind == "mult" && ci % 2 == 0) && !(violated && bad_pairs > 0 && ci % 2 == 1) {
+            if is_ext && !(c.kind == "none" || ci % ext_every == 0 || (bad_pairs > 0 && ci % 2 == 0 && ext_every < 1000)) {
                 continue;
             }
             let res = if is_ext {
@@ -864,6 +876,8 @@ fn probe(args: &[String]) -> anyhow::Result<()> {
         expect: Value::Null,
         kinds: vec![],
         strategies: vec![],
+        ext_every: None,
+        max_cor: None,
     };
     let built = build::<C>(&s, cfg.config()).map_err(|e| anyhow::anyhow!(e))?;
     let common = &built.data.common;
